@@ -599,7 +599,7 @@ def check_none(ck):
 
 def run(ck):
     ck._orig_repo = getattr(ck, "_orig_repo", None) or ck.repo
-    ck.repo = normalized(ck.repo, NORM_MODULES)  # alias / named-boolean / temporary / setter-helper normalisation (vt/x_syncnorm.py)
+    ck.repo = normalized(ck.repo, NORM_MODULES, only=('tornado/ioloop.py', 'tornado/platform/asyncio.py'))  # alias / named-boolean / temporary / setter-helper normalisation (vt/x_syncnorm.py)
     ck.rule("C38.wrapped", "add_callback / call_at / add_callback_from_signal hand asyncio self._run_callback + functools.partial(callback, *args, **kwargs); spawn_callback delegates to add_callback")
     ck.rule("C38.run-callback", "_run_callback runs the callback under non-re-raising handlers for CancelledError and Exception (logged with traceback) and watches a returned awaitable through add_future(ret, _discard_future_result)")
     ck.rule("C38.thread-safe", "add_callback uses plain call_soon only when the running loop is this loop; every other path (other loop, no loop) uses call_soon_threadsafe; exactly one scheduling call")
